@@ -93,7 +93,10 @@ def main():
     recheck = None
     if "--recheck-killed" in sys.argv:
         recheck = sys.argv[sys.argv.index("--recheck-killed") + 1]
-    out = subprocess.run([os.path.join(VERIF, "bin/mutgen"), REPO] + (["-gen2"] if gen2 else []) + (["-gen3"] if gen3 else []), capture_output=True, text=True).stdout
+    if "--gen4" in sys.argv:
+        out = subprocess.run([os.path.join(VERIF, "bin/mutgen4"), REPO], capture_output=True, text=True).stdout
+    else:
+        out = subprocess.run([os.path.join(VERIF, "bin/mutgen"), REPO] + (["-gen2"] if gen2 else []) + (["-gen3"] if gen3 else []), capture_output=True, text=True).stdout
     muts = [json.loads(l) for l in out.splitlines() if l.strip()]
     if only: muts = [m for m in muts if only in m["file"] or only in m["func"]]
     if recheck:
